@@ -91,6 +91,58 @@ fn case_fn(case: &mut Case) -> CaseResult {
     Ok(())
 }
 
+/// the same valid documents distributed over several files connected by #import lines (chains,
+/// diamonds, cycles between files, files in different directories): still no diagnostic
+fn multi_file_case(case: &mut Case) -> CaseResult {
+    let so = schema_opts_from_flags(case);
+    let gs = gen_schema(&mut case.ch, &so);
+    let mut dopts = doc_opts_from_flags(case);
+    dopts.all_fragments_used = true;
+    dopts.max_frags = 5;
+    let (gd, _) = gen_doc(&mut case.ch, &gs.schema, &dopts);
+    let labels = refvalid::validate(&gs.schema, &gd.doc);
+    if !labels.is_empty() {
+        panic!("harness: generated document is not valid per the reference validator: {labels:?}");
+    }
+    let split = crate::split::split_into_files(&mut case.ch, &gd.doc);
+    let schema_text = canon_ts(&gs.doc);
+    let sfiles = vec![(PathBuf::from("/p/schema.graphql"), schema_text.clone())];
+    let ofiles: Vec<(PathBuf, String)> = split.files.iter().map(|(rel, m)| (PathBuf::from(format!("/p/ops/{rel}")), canon_op(m))).collect();
+    let detail = json!({"schema": schema_text, "operation_files": ofiles.iter().map(|(p, t)| json!({"path": p, "text": t})).collect::<Vec<_>>()});
+    let ss = schema_stage(&sfiles, &detail)?;
+    if !ss.ok() {
+        let d = ss.all_diags();
+        return Err(Failure::new(format!("schema-rejected:{}", d[0].kind), format!("valid schema rejected: {:?}", d[0]), detail));
+    }
+    let os = op_stage(ss.doc.as_ref().unwrap(), 1, &ofiles, &detail)?;
+    let diags = os.all_diags();
+    if let Some(d) = diags.first() {
+        return Err(Failure::new(
+            format!("false-diagnostic:multi-file:{}", d.kind),
+            format!("valid multi-file project rejected: {} (file index {} at {}:{})", d.message, d.file, d.line, d.col),
+            json!({"schema": schema_text, "operation_files": detail["operation_files"], "diagnostics": diags.iter().map(|d| d.to_json()).collect::<Vec<_>>()}),
+        ));
+    }
+    case.label(&format!("files-{}", ofiles.len()));
+    if split.max_chain >= 2 {
+        case.label("import-chain>=2");
+    }
+    if split.diamond {
+        case.label("import-diamond");
+    }
+    if split.specific_imports {
+        case.label("specific-imports");
+    }
+    if split.wildcard_imports {
+        case.label("wildcard-imports");
+    }
+    if split.max_chain >= 2 || split.diamond {
+        case.nontrivial(&detail.to_string());
+    }
+    case.sample(|| detail.clone());
+    Ok(())
+}
+
 pub fn run(env: &Env) -> i32 {
     let mut rep = Report::new(
         env,
@@ -122,5 +174,7 @@ pub fn run(env: &Env) -> i32 {
     rep.probe("C04-nullable-var-with-default", probe(sch, "query Q($v: String = \"x\", $w: Int) { g(s: $v, d: $w) }"));
 
     rep.campaign("valid-docs", env.cases(80_000, 800_000), (100, 1200), case_fn);
+    rep.note("campaign multi-file: the same generated valid documents (up to 5 fragments) distributed over 1-4 files in different directories, each importing by name or wildcard what it spreads (chains, diamonds, cycles between files, bare and detour path spellings); oracle: zero diagnostics for every file. Non-trivial there: an import chain of length >= 2 or a diamond");
+    rep.campaign("multi-file", env.cases(30_000, 300_000), (150, 1400), multi_file_case);
     rep.finish()
 }
